@@ -43,7 +43,8 @@ def strategy(tier):
     def cases(draw):
         spec, focus = draw(gen.specs_and_focus(opts, 10))
         rec = draw(gen.recipes(spec, max_rows=8, reload_ok=False, focus=focus, inf_weights=True))
-        return {"spec": spec, "state": rec, "site": draw(st.integers(0, 10**6)), "as_string": draw(st.booleans())}
+        return {"spec": spec, "state": rec, "site": draw(st.integers(0, 10**6)), "as_string": draw(st.booleans()),
+                "prefer": draw(st.sampled_from((None, None, None, None, "typetag")))}
 
     return cases()
 
@@ -59,6 +60,11 @@ def check(case):
     require(not other, "valid-document-changed", lambda: f"a document produced by toJson() re-serialises differently: {other[:4]}")
 
     ss = jsonmut.sites(doc)
+    prefer = case.get("prefer")
+    if prefer:
+        # (type tags are few among the sites of a document: a fifth of the cases mutate one of them)
+        sub = [x for x in ss if x[1] == "set" and isinstance(x[2], (list, tuple)) and x[2][1] == jsonmut.UNKNOWN_TYPE]
+        ss = sub or ss
     site = ss[case["site"] % len(ss)]
     bad = jsonmut.apply(doc, site)
     path, op, arg, T = site
